@@ -15,6 +15,7 @@ import (
 //	r52 / r36   reversed factory order
 //	t52 / t36   factory order rotated by 17
 //	royal52/36  board is a spade royal flush: every 2-hole-card hand ties (board plays)
+//	<name>:<n>  the first n cards of layout <name> (a deck that fits the hand exactly: seats*hole+8 cards)
 //	sv:a,b,c..  "strength vector" on the 52-card deck: board KS JH 9D 7C 6S; seat i gets
 //	            class 0 = nothing (board plays / junk), 1..5 = a pair of 6,7,9,J,K.
 //	            Equal classes tie exactly, higher class wins. At most 3 seats per pair
@@ -22,6 +23,20 @@ import (
 //	            with exactly 2 required (<= 4 seats).
 func BuildDeck(c *Config) []string {
 	name := c.Deck
+	// "<layout>:<n>" keeps only the first n cards (exact-fit and near-fit decks)
+	if i := strings.LastIndex(name, ":"); i > 0 && !strings.HasPrefix(name, "sv:") {
+		n, err := strconv.Atoi(name[i+1:])
+		if err != nil {
+			panic("bad deck spec " + name)
+		}
+		c2 := *c
+		c2.Deck = name[:i]
+		full := BuildDeck(&c2)
+		if n > len(full) {
+			n = len(full)
+		}
+		return append([]string{}, full[:n]...)
+	}
 	base := pf.NewStandardDeckCards()
 	if strings.HasSuffix(name, "36") {
 		base = pf.NewShortDeckCards()
